@@ -83,6 +83,10 @@ Fixpoint to_json (v : tv) : option json :=
                                           end) m))
   end.
 
+(* every number text of the tree is in the JSON grammar: the tree reads as a JSON value (any tree a JSON parser
+   builds is readable) *)
+Definition readable (v : tv) : bool := match to_json v with Some _ => true | None => false end.
+
 (* ---- the structural part of a schema ---- *)
 Fixpoint skeleton (s : schema) : schema :=
   match s with
